@@ -73,7 +73,13 @@ class SubstituteInterpretation(Interpretation):
             # such as a Tensor that reports all of its inputs as fresh.
             fresh_subs = tuple((k, v) for k, v in self.subs if k in self.fresh)
             if fresh_subs:
-                expr = instrument.debug_logged(expr.eager_subs)(fresh_subs)
+                if all(k in expr.fresh for k, v in fresh_subs):
+                    expr = instrument.debug_logged(expr.eager_subs)(fresh_subs)
+                else:
+                    # expr evaluated to another kind of term (e.g. a one-part
+                    # Cat to its part) that does not introduce these names
+                    # itself: substitute into it like into any other term.
+                    expr = substitute(expr, fresh_subs)
             if instrument.PROFILE:
                 instrument.COUNTERS["interpretation"]["substitute"] += 1
             return expr
